@@ -123,12 +123,17 @@ def inline_calls(facts, body, should_inline=None, max_depth=3, trait_defaults=Fa
             blocks.append(nb)
         # a generic helper called with concrete type arguments: its trait-method calls resolve as the extractor computed for
         # THESE arguments (`mono`), not as "any implementation of the trait"
-        for bb_, res_, ga_ in t.get('mono') or ():
+        for ent_ in t.get('mono') or ():
+            if ent_[0] == 'c':
+                continue
+            bb_, res_, ga_ = ent_[0], ent_[1], ent_[2]
             ct = blocks[boff + bb_]['t']
             if ct.get('k') == 'call' and not ct.get('resolved'):
                 if res_:
                     ct['resolved'] = res_
                 ct['gargs'] = ga_
+                if len(ent_) > 3 and ent_[3] and not ct.get('mono'):
+                    ct['mono'] = ent_[3]
         for i, a in enumerate(t['args']):  # parameters are _1.._argc of the callee
             blk['s'].append(dict(pos, k='assign', lhs={'l': loff + 1 + i, 'p': []},
                                  rv={'k': 'use', 'op': a}, inl=mark))
